@@ -414,6 +414,31 @@ TRUSTED_BASE = [
 ]
 
 
+def source_fingerprint():
+    """sha256 of every module of the package under test (VERIF_REPO or /repo)"""
+    import hashlib
+    repo = os.environ.get("VERIF_REPO", "/repo")
+    out = {}
+    pkg = os.path.join(repo, "remerkleable")
+    for fn in sorted(os.listdir(pkg)):
+        if fn.endswith(".py"):
+            out[fn] = hashlib.sha256(open(os.path.join(pkg, fn), "rb").read()).hexdigest()
+    return out
+
+
+def source_changed():
+    """files of the package that differ from the tree the model was last validated against
+    (source_fingerprint.json, committed).  A difference is NOT a violation: it only makes the quick tier
+    draw more cases (the model may no longer describe the code, so the correspondence is explored deeper)."""
+    p = os.path.join(VERIF, "source_fingerprint.json")
+    try:
+        base = json.load(open(p))
+    except Exception:
+        return []
+    cur = source_fingerprint()
+    return sorted(k for k in set(base) | set(cur) if base.get(k) != cur.get(k))
+
+
 def main(mod, prop, tier, seed, replay=None):
     ctx = Ctx(prop, tier, seed)
     t0 = time.time()
@@ -432,6 +457,15 @@ def main(mod, prop, tier, seed, replay=None):
             print("replay file names no input (%s)" % j.get("broken", "?"))
     else:
         inputs = load_corpus(prop) + list(mod.gen_inputs(ctx))
+        changed = source_changed()
+        if changed and tier == "quick" and not getattr(mod, "NO_ESCALATE", False):
+            # the code differs from the validated tree: two more rounds of generated inputs, other seeds
+            for extra in (1, 2):
+                ctx.rng = random.Random("%s/%d/extra%d" % (prop, seed, extra))
+                inputs += list(mod.gen_inputs(ctx))
+            ctx.count("escalated_rounds", 2)
+            notes.append("source differs from the validated tree (%s): quick tier escalated to 3 rounds of inputs"
+                         % ", ".join(changed))
     cases, seen, build_errors = [], set(), []
     for inp in inputs:
         try:
@@ -557,6 +591,7 @@ def main(mod, prop, tier, seed, replay=None):
             "rule": getattr(mod, "RULE", ""),
             "samples": samples,
             "distribution": ctx.dist,
+            "notes": notes,
             "model_mismatches": len(mism), "model_only_mismatches": len(m_only),
             "known_findings_hit": [k.get("what") for k in known_hits],
             "exhaustive": bool(getattr(mod, "EXHAUSTIVE", {}).get(tier, False)),
